@@ -97,8 +97,14 @@ func init() {
 			}
 			pre := fmt.Sprintf("sentence [%s]: ", strings.Join(seq, " "))
 			key := it.ID + " [" + strings.Join(seq, " ") + "]"
-			for ctxMode := 0; ctxMode < 3; ctxMode++ {
+			for ctxMode := 0; ctxMode < 4; ctxMode++ {
 				rec := &rt.Recorder{}
+				if ctxMode == 3 {
+					if len(wantCalls) < 2 {
+						continue
+					}
+					rec.SwitchAt = 1 + len(seq)%(len(wantCalls)-1) // somewhere before the last action
+				}
 				rt.Default = nil
 				if ctxMode == 1 {
 					rt.Default = rec
@@ -130,8 +136,14 @@ func init() {
 					return
 				}
 				// $Context denotes the value stored in the parser's Context field
-				wantCtx := []string{"", "/ctx=<nil>", "/ctx=other:second"}[ctxMode]
+				wantCtx := []string{"", "/ctx=<nil>", "/ctx=other:second", "/ctx=other:first"}[ctxMode]
+				nact := 0
 				for _, ev := range rec.Log {
+					if ev.Kind == "act" {
+						if nact++; ctxMode == 3 && nact > rec.SwitchAt {
+							wantCtx = "/ctx=other:second" // reassigned after SwitchAt action calls
+						}
+					}
 					if ev.Kind == "act" && ev.Ctx != wantCtx {
 						st.violation("C03", key, fmt.Sprintf("%saction received context %q, Parser.Context holds %q", pre, ev.Ctx, wantCtx), cs)
 						return
